@@ -152,7 +152,7 @@ func TestConsumers(t *testing.T) {
 		t.Fatal(err)
 	}
 	nmut := ev.Pick(10, 16)
-	ev.Check(t, ev.N(150, 12_000), func(t *rapid.T) {
+	ev.Check(t, ev.N(150, 8_000), func(t *rapid.T) {
 		k := mkKey(scalarPool[rapid.IntRange(0, len(scalarPool)-1).Draw(t, "keyidx")], false)
 		chain := rapid.SampledFrom(chainIDs).Draw(t, "chain")
 		var e155 *big.Int
